@@ -540,6 +540,17 @@ func (ms *Modules) include(m *Module) error {
 		if im == nil {
 			return fmt.Errorf("no such submodule: %s", i.Name)
 		}
+		// A module includes the submodules that belong to it, and a
+		// submodule those that belong to the same module (RFC 7950
+		// 7.1.6): the nodes of any other would be taken for nodes of
+		// this module.
+		owner := m.Name
+		if m.BelongsTo != nil {
+			owner = m.BelongsTo.Name
+		}
+		if im.BelongsTo == nil || im.BelongsTo.Name != owner {
+			return fmt.Errorf("%s: %s includes %s, which does not belong to %s", Source(i), m.Name, im.Name, owner)
+		}
 		// Process the include statements in our included module.
 		if err := ms.include(im); err != nil {
 			return err
